@@ -80,6 +80,29 @@ func IntBits(p string) int {
 type Dim struct {
 	Name string // "" = unnamed
 	Len  *uint64
+	// Comment: documentation comment written above the dimension (forces the expanded !array spelling)
+	Comment string `json:",omitempty"`
+}
+
+// ContainsDimComment: t or a type nested in it is an array with a documented dimension.
+func (t *Type) ContainsDimComment() bool {
+	found := false
+	Walk(t, func(x *Type) {
+		if x != nil && x.Kind == KArray && x.HasDimComment() {
+			found = true
+		}
+	})
+	return found
+}
+
+// HasDimComment: some dimension carries a documentation comment.
+func (t *Type) HasDimComment() bool {
+	for _, d := range t.Dims {
+		if d.Comment != "" {
+			return true
+		}
+	}
+	return false
 }
 
 // Type is a type expression.
